@@ -29,7 +29,7 @@ PROGS = [
     ("Ptest", ["undx"], True, ["test"]),
     ("Ptreat", ["dx"], True, ["treat"]),
     ("Ploss1", ["tx"], False, ["loss"]),
-    ("Ploss2", ["tx"], False, ["loss"]),
+    ("Ploss2", ["tx", "lost"], False, ["loss"]),  # two target compartments
     ("Pptx", ["undx"], False, ["ptx"]),
 ]
 
@@ -137,11 +137,23 @@ def body_factory(interaction="additive", start=2000.25, stop=None, overwrite=Non
             with Hooks(am, post=dict(update_comps=post_comps)), shim.Installed([(ap.ProgramSet, "get_outcomes", get_outcomes_hook)]):
                 m.process()
             res = ares.Result(model=m, parset=parset)
+            # the reports are read-only views of the run: every compartment array is the same object with the same terms afterwards
+            snap = {(pop.name, c.name): (c.vals if not isinstance(c, (am.TimedCompartment,)) else None, list(c.vals)) for pop in m.pops for c in pop.comps}
             rep_frac = res.get_coverage("fraction")
             rep_elig = res.get_coverage("eligible")
             rep_cap = res.get_coverage("capacity")
             rep_num = res.get_coverage("number")
             rep_alloc = res.get_alloc()
+            rep_elig2 = res.get_coverage("eligible")
+            from vsym.core import _same as _same_term
+
+            for pop in m.pops:
+                for c in pop.comps:
+                    obj0, vals0 = snap[(pop.name, c.name)]
+                    now = list(c.vals)
+                    env.claim("reports_leave_the_run_untouched|%s|%s" % (pop.name, c.name), env.true(len(now) == len(vals0) and all(_same_term(a, b) for a, b in zip(now, vals0))), key="report_purity")
+            for name in rep_elig:
+                env.claim("repeated_query_gives_the_same_eligible|%s" % name, env.true(all(_same_term(a, b) for a, b in zip(rep_elig[name], rep_elig2[name]))), key="report_purity")
             dt = m.dt
             tvec = [float(t) for t in m.t]
             for ti, t in enumerate(tvec):
